@@ -143,7 +143,7 @@ func TestVerifC04(t *testing.T) {
 			return []routing.RulesOptimizer{&routing.AliasOptimizer{}, dat(), &routing.MergeAndSortRulesOptimizer{}, &routing.DeduplicateParamsOptimizer{}}
 		}},
 	}
-	gen := &vk.RGen{R: r, Groups: verifGroups, NeighbourBias: 0.6, V6Slash0: true, GeoRefs: true, MaxRules: 10}
+	gen := &vk.RGen{R: r, Groups: verifGroups, NeighbourBias: 0.6, V6Slash0: true, GeoRefs: true, MaxRules: 10, BadKeyword: true}
 	nprog := vk.Scale(1500, 40000)
 	npkt := vk.Scale(80, 120)
 	for i := 0; i < nprog && m.Violations() < 5; i++ {
@@ -214,6 +214,16 @@ func TestVerifC04(t *testing.T) {
 				}
 			}
 			b, err := verifBuildMatcher(rules, fb, pl.opts()...)
+			if p.HasBadKeyword() {
+				// a keyword the automaton cannot hold: refusing the program is fine; a program
+				// that is accepted is judged like any other (the value matches no lower-case name)
+				m.Count("bad_keyword_program_builds", 1)
+				if err != nil && strings.Contains(err.Error(), "char out of range") {
+					m.Count("bad_keyword_program_refused", 1)
+					continue
+				}
+				m.Count("bad_keyword_program_accepted", 1)
+			}
 			if err != nil {
 				m.Violation("build-error/"+pl.name, err.Error(), map[string]any{"text": p.Text(), "pipeline": pl.name})
 				continue
@@ -252,7 +262,7 @@ func TestVerifC04(t *testing.T) {
 			m.Sample(map[string]any{"written": p.Text(), "optimised_production": verifRulesText(opt), "changed_by": changed})
 		}
 	}
-	m.Require("changed_by_A", "changed_by_D", "changed_by_M", "changed_by_U", "rules_merged", "empty_expansion_rejected")
+	m.Require("changed_by_A", "changed_by_D", "changed_by_M", "changed_by_U", "rules_merged", "empty_expansion_rejected", "bad_keyword_program_builds")
 	verifC04DnsPipelines(m, r)
 	m.Done(t)
 }
